@@ -566,3 +566,48 @@ class Percentile(Contract):
             yield "result-is-empty", S.shape(result.values)[-1] == 0
         else:
             yield "scalar-is-the-first-cell", S.same(result, S.at(env["data"], 0))
+
+
+
+class ArgExtremumWhole(Contract):
+    """a.argmin() / a.argmax() over the WHOLE array (axis=None): the label -- for N-d arrays the tuple of labels, one per
+    dimension in order -- at the coordinate whose row-major position is NumPy's np.argmin(values) / np.argmax(values); that
+    position lies among the array's cells (library range law), so every label exists.  Indexing the array with the returned
+    labels then yields NumPy's extremum (C01).  [C09]"""
+    target = "dimarray.core.transform:argmin"
+    props = ("C09",)
+    inlined = ("apply_along_axis", "np.unravel_index (row-major model, C11)")
+
+    def cases(self, tier):
+        for func in ("argmin", "argmax"):
+            for rank in (1, 2, 3):
+                yield {"name": "%s-r%d-whole" % (func, rank), "func": func, "rank": rank}
+
+    def bound_lengths(self, case):
+        return ["lab%d.n" % d for d in range(case["rank"])]
+
+    def setup(self, S, case):
+        return _setup(S, case["rank"])
+
+    def call(self, fn, env):
+        return getattr(env["arr"], env["case"]["func"])()
+
+    def post(self, S, case, env, result):
+        labels, data, rank = env["labels"], env["data"], case["rank"]
+        flat = S.np_apply(case["func"], data, axis=None)
+        sizes = [S.n(L) for L in labels]
+        u = S.unrowmajor(flat, sizes)
+        yield "position-among-the-cells", S.land(*[S.land(0 <= u[d], u[d] < sizes[d]) for d in range(rank)])
+        if True:
+            # (also for a 1-d array: a 1-tuple, which indexes the array just as well)
+            ok = isinstance(result, tuple) and len(result) == rank
+            yield "a-tuple-with-one-label-per-dimension", ok
+            if not ok:
+                return
+            for d in range(rank):
+                yield "x%d:the-label-at-the-coordinate-of-numpys-flat-position" % d, S.implies(S.land(0 <= u[d], u[d] < sizes[d]), lambda d=d: result[d] == S.at(labels[d], u[d]))
+        yield "operand-untouched", _untouched(S, env, rank)
+
+    def canaries(self, S, case, env, result):
+        r0 = result[0] if isinstance(result, tuple) else result
+        yield "always-the-first-label", r0 == S.at(env["labels"][0], 0)
